@@ -554,7 +554,7 @@ class UnionMetaType(StructureMetaType):
         for field in fields:
             if isinstance(field.type, StructureMetaType) and field.name is None:
                 # Prefer to write regular fields initially
-                anonymous_struct = field.type
+                anonymous_struct = field
                 continue
 
             # Write the value
@@ -563,7 +563,8 @@ class UnionMetaType(StructureMetaType):
 
         # If we haven't written anything yet and we initially skipped an anonymous struct, write it now
         if stream.tell() == offset and anonymous_struct:
-            anonymous_struct._write(stream, data)
+            # Write the value of the anonymous member itself, its own anonymous members are not reachable on the union
+            anonymous_struct.type._write(stream, getattr(data, anonymous_struct._name))
 
         # If we haven't filled the union size yet, pad it
         if remaining := expected_offset - stream.tell():
